@@ -143,14 +143,23 @@ func proxyBlock(c *confT, backendAddr string) string {
 	if c.Transparent {
 		b.WriteString("\ttransparent\n")
 	}
+	// the "set" rule of the model is the last plain rule written for its header: in half of the
+	// configurations an earlier plain rule for the same header precedes it (the last one wins)
+	earlier := c.Transparent != c.Retry
 	for _, r := range []string{"set", "add", "del", "re"} {
 		for _, u := range c.Up {
 			if u == r {
+				if r == "set" && earlier {
+					b.WriteString("\theader_upstream X-Set one\n")
+				}
 				b.WriteString("\t" + ruleLines[r][0] + "\n")
 			}
 		}
 		for _, d := range c.Down {
 			if d == r {
+				if r == "set" && earlier {
+					b.WriteString("\theader_downstream X-Dset one\n")
+				}
 				b.WriteString("\t" + ruleLines[r][1] + "\n")
 			}
 		}
